@@ -50,8 +50,7 @@ ILLTYPED = [("type", Num("5")), ("type", [Num("1")]), ("type", None), ("items", 
             ("dependencies", Obj([("a", Num("1"))])), ("$ref", Num("1")), ("$ref", "::bad"), ("$ref", "#%zz"), ("$id", "#frag"), ("$id", "::"),
             ("pattern", "("), ("patternProperties", Obj([("[", True)])), ("$defs", Obj([("x", None)])), ("not", None), ("if", []),
             ("uniqueItems", "yes"), ("$vocabulary", Obj([("v", Num("1"))])), ("dependentRequired", Obj([("a", "b")])),
-            ("$dynamicRef", "#nosuch"), ("$dynamicRef", "#"), ("$dynamicRef", "#/properties"), ("$dynamicRef", "#/definitions/d0"),
-            ("$dynamicRef", "#/$defs/d0"), ("maxLength", Num("4294967296.0")), ("minItems", Num("2147483648.0")), ("minLength", Num("1e10")), ("$schema", Num("7")), ("additionalProperties", None), ("prefixItems", Obj()), ("default", None)]
+            ("$dynamicRef", "#nosuch"), ("$dynamicRef", "#/properties"), ("$dynamicRef+defs", "definitions"), ("$dynamicRef+defs", "$defs"), ("maxLength", Num("4294967296.0")), ("minItems", Num("2147483648.0")), ("minLength", Num("1e10")), ("$schema", Num("7")), ("additionalProperties", None), ("prefixItems", Obj()), ("default", None)]
 
 
 def graph(rng, fields):
@@ -100,6 +99,11 @@ def gen(rng, tier, n):
             positions(doc, pos)
             for _ in range(rng.randint(1, 2)):
                 k, v = rng.choice(ILLTYPED)
+                if k == "$dynamicRef+defs":
+                    # a $dynamicRef that does resolve (to a sibling definition, never to itself), in either draft
+                    doc.set(v, Obj([("zd0", Obj([("type", "integer")]))]))
+                    doc.set("$dynamicRef", "#/" + v + "/zd0")
+                    continue
                 rng.choice(pos).set(k, v)
             ops.append({"op": "unmarshal-bytes", "args": {"text": to_text(doc)}, "meta": {"illtyped": True}})
         elif r < 0.6:
